@@ -47,6 +47,10 @@ def classify(n):
         return "substr", n.get("obj"), "std::out_of_range"
     if name in ("stoi", "stol", "stoul", "stoull", "stod", "stof", "stoll"):
         return "sto", args[0] if args else None, "std::invalid_argument"
+    if name == "get" and "context_manager" in cls and args:
+        # contexts are created while the validators run: a get() for an entity whose context does not exist yet
+        # dereferences end() (release) / trips an assert
+        return "ctx-get", args[0], "UB"
     if name == "__assert_fail":
         return "assert", None, "abort"
     if n.get("k") == "UnaryOperator" and n.get("op") == "*":
@@ -108,6 +112,8 @@ def sites(f=None):
                 t0 = text_of(obj, fn)
                 if not re.search(r"(^|\.)(lower_bound|upper_bound|find|find_if|find_if_not|min_element|max_element|search|adjacent_find|equal_range)\(", t0):
                     continue
+            if kind == "ctx-get" and not fn["file"].endswith("sbe_schema_validator.hpp"):
+                continue        # after validation every entity has its context (phase order: G-CALL.order)
             par = par or gen.parents(fn)
             g = gguard.guard_of(fn, n, par)
             ot = text_of(obj, fn)
